@@ -1,5 +1,24 @@
 package sim
 
+import (
+	"encoding/json"
+	"fmt"
+
+	"github.com/google/jsonschema-go/jsonschema"
+	"verif.local/simrt"
+)
+
+func init() {
+	Drivers["C15"] = driveC15
+	Levels["C15"] = "exploration"
+	Rules["C15"] = "one run = 1-3 generated schemas with defaults of every JSON type at depth <=3 (with and without required, on object and non-object subschemas, object-valued defaults that need nested completion) and two instances (any subset of the properties present, non-objects at any position, undeclared keys), driven through a history of 4-10 steps: ApplyDefaults(R_j), apply again, client edits (delete a key, set a key, replace a subtree, mutate in place a container that an earlier application inserted), switch instance; the whole history is repeated under 4 map-order schedules. Oracles (relational checker written from the property text): everything present before is present and equal after; every new key is a non-required declared property whose value is the declared default completed only by legitimate insertions, or a container that transitively holds >=1 declared default; a second application changes nothing; the states are identical under every schedule; Resolve(ValidateDefaults) succeeds iff every default validates against its declaring subschema resolved on its own. Non-trivial = a step inserted >=1 default at depth >=2 into an instance that already had sibling values. Distinct = hash(schemas, instances, history) x order-vector hash."
+	Assumptions["C15"] = append([]string{
+		"the checker demands that what is inserted is legitimate, not that everything possible is inserted (a no-op ApplyDefaults does not violate the property as written); how many defaults were filled is a statistic",
+		"instances are canonical encoding/json values held in an `any` through a pointer; typed holders, whose mismatches are documented to panic, are not generated",
+		"defaults worlds are reference-free, so a subschema resolved on its own means the same as in its document",
+	}, CommonAssumptions...)
+}
+
 // DefaultsWorld is a schema with defaults and instances for ApplyDefaults.
 type DefaultsWorld struct {
 	Doc   map[string]any
@@ -75,4 +94,416 @@ func GenDefaultsWorld(c *Ctx) *DefaultsWorld {
 		d.Insts = append(d.Insts, genDefInstance(c, d.Doc, 3))
 	}
 	return d
+}
+
+// ---------------------------------------------------------------------------
+// The relational checker (written from the property text)
+
+// defaultsCheck compares an instance before and after an application of the
+// schema document s. It returns the number of declared defaults that were
+// inserted, or a description of the first illegitimate change.
+func defaultsCheck(before, after any, s map[string]any, path string) (int, string) {
+	bm, bok := before.(map[string]any)
+	am, aok := after.(map[string]any)
+	if !bok || !aok {
+		// A value that is not an object must be left exactly as it was.
+		if typedJSONDeep(before) != typedJSONDeep(after) {
+			return 0, fmt.Sprintf("%s: value already present changed from %s to %s", orRoot(path), JSON(before), JSON(after))
+		}
+		return 0, ""
+	}
+	props, _ := s["properties"].(map[string]any)
+	required := map[string]bool{}
+	if rs, ok := s["required"].([]any); ok {
+		for _, r := range rs {
+			if k, ok := r.(string); ok {
+				required[k] = true
+			}
+		}
+	}
+	n := 0
+	for k, bv := range bm {
+		av, ok := am[k]
+		if !ok {
+			return 0, fmt.Sprintf("%s/%s: a value that was present has been removed", path, k)
+		}
+		sub, isSchema := props[k].(map[string]any)
+		if !isSchema {
+			if typedJSONDeep(bv) != typedJSONDeep(av) {
+				return 0, fmt.Sprintf("%s/%s: value already present (no subschema declared for it) changed from %s to %s", path, k, JSON(bv), JSON(av))
+			}
+			continue
+		}
+		m, msg := defaultsCheck(bv, av, sub, path+"/"+k)
+		if msg != "" {
+			return 0, msg
+		}
+		n += m
+	}
+	for k, av := range am {
+		if _, was := bm[k]; was {
+			continue
+		}
+		sub, isSchema := props[k].(map[string]any)
+		if !isSchema {
+			return 0, fmt.Sprintf("%s/%s: inserted %s, but the schema declares no such property", path, k, JSON(av))
+		}
+		if required[k] {
+			return 0, fmt.Sprintf("%s/%s: a required property was filled with %s", path, k, JSON(av))
+		}
+		if d, has := sub["default"]; has {
+			// the declared default, completed with nested defaults
+			m, msg := defaultsCheck(d, av, sub, path+"/"+k)
+			if msg != "" {
+				return 0, fmt.Sprintf("%s/%s: inserted %s, which is not the declared default %s completed with nested defaults (%s)", path, k, JSON(av), JSON(d), msg)
+			}
+			n += m + 1
+			continue
+		}
+		// no default declared here: must be a container holding at least one declared default
+		if _, isObj := av.(map[string]any); !isObj {
+			return 0, fmt.Sprintf("%s/%s: inserted %s, but the subschema declares no default", path, k, JSON(av))
+		}
+		m, msg := defaultsCheck(map[string]any{}, av, sub, path+"/"+k)
+		if msg != "" {
+			return 0, msg
+		}
+		if m == 0 {
+			return 0, fmt.Sprintf("%s/%s: inserted the container %s, which holds no declared default", path, k, JSON(av))
+		}
+		n += m
+	}
+	return n, ""
+}
+
+func orRoot(p string) string {
+	if p == "" {
+		return "(root)"
+	}
+	return p
+}
+
+// typedJSONDeep renders a canonical JSON value with the Go types of its leaves,
+// so that 1 -> "1" or float64 -> int changes are seen.
+func typedJSONDeep(v any) string {
+	switch x := v.(type) {
+	case map[string]any:
+		s := "{"
+		for _, k := range sortedKeys(x) {
+			s += fmt.Sprintf("%q:%s,", k, typedJSONDeep(x[k]))
+		}
+		return s + "}"
+	case []any:
+		s := "["
+		for _, e := range x {
+			s += typedJSONDeep(e) + ","
+		}
+		return s + "]"
+	}
+	return fmt.Sprintf("%T:%v", v, v)
+}
+
+// walkDefaults calls f for every subschema of doc (under properties) that declares a default.
+func walkSchemas(doc map[string]any, f func(s map[string]any)) {
+	f(doc)
+	if props, ok := doc["properties"].(map[string]any); ok {
+		for _, k := range sortedKeys(props) {
+			if sub, ok := props[k].(map[string]any); ok {
+				walkSchemas(sub, f)
+			}
+		}
+	}
+}
+
+type c15step struct {
+	Kind int // 0 apply, 1 apply again (idempotence), 2 delete key, 3 set key, 4 replace subtree, 5 mutate inserted container, 6 switch instance, 7 validate
+	R    int
+	A, B int
+}
+
+func (s c15step) String() string {
+	return fmt.Sprintf("%s(%d,%d,%d)", []string{"apply", "apply-twice", "delete", "set", "replace", "mutate-inserted", "switch", "validate"}[s.Kind], s.R, s.A, s.B)
+}
+
+// pathsOf lists the object-valued positions of an instance (as key paths).
+func objectPaths(v any, prefix []string, out *[][]string) {
+	m, ok := v.(map[string]any)
+	if !ok {
+		return
+	}
+	*out = append(*out, append([]string(nil), prefix...))
+	for _, k := range sortedKeys(m) {
+		objectPaths(m[k], append(prefix, k), out)
+	}
+}
+
+func at(v any, path []string) map[string]any {
+	for _, k := range path {
+		m, ok := v.(map[string]any)
+		if !ok {
+			return nil
+		}
+		v = m[k]
+	}
+	m, _ := v.(map[string]any)
+	return m
+}
+
+func depthOfInsert(before, after any, d int) int {
+	bm, _ := before.(map[string]any)
+	am, ok := after.(map[string]any)
+	if !ok {
+		return 0
+	}
+	best := 0
+	for k, av := range am {
+		bv, was := bm[k]
+		if !was {
+			if d+1 > best {
+				best = d + 1
+			}
+			if x := depthOfInsert(map[string]any{}, av, d+1); x > best {
+				best = x
+			}
+			continue
+		}
+		if x := depthOfInsert(bv, av, d+1); x > best {
+			best = x
+		}
+	}
+	return best
+}
+
+func driveC15(c *Ctx) {
+	nw := 1 + c.W(3)
+	var worlds []*DefaultsWorld
+	for i := 0; i < nw; i++ {
+		worlds = append(worlds, GenDefaultsWorld(c))
+		c.In("schema%d %s", i, worlds[i].Text)
+	}
+	inst0 := []any{clone(worlds[0].Insts[0]), clone(worlds[len(worlds)-1].Insts[1%len(worlds[len(worlds)-1].Insts)])}
+	c.In("instances %s", JSON(inst0))
+	nsteps := 4 + c.W(7)
+	steps := []c15step{{Kind: 0, R: 0}}
+	for len(steps) < nsteps {
+		k := []int{0, 0, 1, 1, 2, 3, 4, 5, 5, 6, 7}[c.W(11)]
+		steps = append(steps, c15step{Kind: k, R: c.W(nw), A: c.W(16), B: c.W(16)})
+	}
+	c.In("history %v", steps)
+	c.Distinct("%s|%v", JSON(inst0), steps)
+	for _, w := range worlds {
+		c.Distinct("%s", w.Text)
+	}
+
+	// ValidateDefaults clause.
+	for wi, w := range worlds {
+		allValid := true
+		walkSchemas(w.Doc, func(s map[string]any) {
+			d, has := s["default"]
+			if !has {
+				return
+			}
+			var sub jsonschema.Schema
+			if err := json.Unmarshal([]byte(JSON(s)), &sub); err != nil {
+				return
+			}
+			res, err := sub.Resolve(nil)
+			if err != nil {
+				return
+			}
+			var verr error
+			r := Op(func() { verr = res.Validate(clone(d)) })
+			c.CheckOp("Validate(default)", r)
+			if verr != nil {
+				allValid = false
+			}
+		})
+		var sch jsonschema.Schema
+		if err := json.Unmarshal([]byte(w.Text), &sch); err != nil {
+			c.Fail("C15/validate-defaults", "unmarshal", "generated schema does not unmarshal: %v", err)
+			return
+		}
+		var rerr error
+		r := Op(func() { _, rerr = sch.Resolve(&jsonschema.ResolveOptions{ValidateDefaults: true}) })
+		c.CheckOp("Resolve(ValidateDefaults)", r)
+		if !r.Panicked && (rerr == nil) != allValid {
+			c.Fail("C15/validate-defaults", fmt.Sprint(allValid), "schema %d: Resolve(ValidateDefaults) ok=%v, but every default validates against its declaring subschema = %v (error: %v)", wi, rerr == nil, allValid, rerr)
+		}
+		if allValid {
+			c.Probe("all-defaults-valid")
+		} else {
+			c.Probe("some-default-invalid")
+		}
+	}
+
+	scheds := []schedule{{simrt.OrderSorted, 64, 0}, {simrt.OrderReversed, 64, 1}, {simrt.OrderPerVisit, 64, 2}, {simrt.OrderShuffle, 64, 3}}
+	var baseStates []string
+	nontrivial := false
+	inserted := 0
+	for si, sch := range scheds {
+		sch.apply(c)
+		var rs []*jsonschema.Resolved
+		for wi, w := range worlds {
+			var s jsonschema.Schema
+			json.Unmarshal([]byte(w.Text), &s)
+			res, err := s.Resolve(nil)
+			if err != nil {
+				c.Fail("C15/legitimate", "resolve", "schema %d does not resolve: %v", wi, err)
+				return
+			}
+			rs = append(rs, res)
+		}
+		insts := []any{clone(inst0[0]), clone(inst0[1])}
+		cur := 0
+		var lastInserted [][]string // object paths in the current instance that an application created
+		var states []string
+		for ti, st := range steps {
+			doc := worlds[st.R].Doc
+			switch st.Kind {
+			case 0, 1:
+				before := clone(insts[cur])
+				holder := insts[cur]
+				var err error
+				r := Op(func() { err = rs[st.R].ApplyDefaults(&holder) })
+				c.CheckOp("ApplyDefaults", r)
+				insts[cur] = holder
+				if r.Panicked {
+					c.Fail("C15/legitimate", "applydefaults-"+r.String(), "schedule %d step %d: ApplyDefaults(&%s) did not return normally: %s", si, ti, JSON(before), r.Value)
+					return
+				}
+				if err != nil {
+					c.Probe("applydefaults-error")
+				}
+				n, msg := defaultsCheck(before, insts[cur], doc, "")
+				if msg != "" {
+					c.Fail("C15/legitimate", classify(msg), "schedule %d step %d %s: schema %s, instance before %s, after %s: %s", si, ti, st, worlds[st.R].Text, JSON(before), JSON(insts[cur]), msg)
+					return
+				}
+				inserted += n
+				if n > 0 && depthOfInsert(before, insts[cur], 0) >= 2 {
+					if bm, ok := before.(map[string]any); ok && len(bm) > 0 {
+						nontrivial = true
+					}
+				}
+				// remember which containers this application created
+				lastInserted = nil
+				var ap, bp [][]string
+				objectPaths(insts[cur], nil, &ap)
+				objectPaths(before, nil, &bp)
+				was := map[string]bool{}
+				for _, p := range bp {
+					was[fmt.Sprint(p)] = true
+				}
+				for _, p := range ap {
+					if !was[fmt.Sprint(p)] && len(p) > 0 {
+						lastInserted = append(lastInserted, p)
+					}
+				}
+				if st.Kind == 1 {
+					first := typedJSONDeep(insts[cur])
+					holder := insts[cur]
+					r := Op(func() { rs[st.R].ApplyDefaults(&holder) })
+					c.CheckOp("ApplyDefaults", r)
+					insts[cur] = holder
+					if typedJSONDeep(insts[cur]) != first {
+						c.Fail("C15/idempotence", "second-application", "schedule %d step %d: a second application of the same schema changed the instance from %s to %s (schema %s)", si, ti, first, typedJSONDeep(insts[cur]), worlds[st.R].Text)
+						return
+					}
+					c.Probe("idempotence-checked")
+				}
+			case 2, 3, 4:
+				var ps [][]string
+				objectPaths(insts[cur], nil, &ps)
+				if len(ps) == 0 {
+					break
+				}
+				m := at(insts[cur], ps[st.A%len(ps)])
+				ks := sortedKeys(m)
+				switch st.Kind {
+				case 2:
+					if len(ks) > 0 {
+						delete(m, ks[st.B%len(ks)])
+					}
+				case 3:
+					m[[]string{"a", "b", "c", "d"}[st.B%4]] = clone(defValuePool[st.A%len(defValuePool)])
+				case 4:
+					if len(ks) > 0 {
+						m[ks[st.B%len(ks)]] = map[string]any{}
+					}
+				}
+			case 5:
+				if len(lastInserted) > 0 {
+					if m := at(insts[cur], lastInserted[st.A%len(lastInserted)]); m != nil {
+						m["mutated-by-client"] = "x"
+						for _, k := range sortedKeys(m) {
+							if k != "mutated-by-client" && st.B%2 == 0 {
+								delete(m, k)
+								break
+							}
+						}
+						c.Probe("client-mutated-inserted-container")
+					}
+				}
+			case 6:
+				cur = 1 - cur
+				lastInserted = nil
+			case 7:
+				inst := insts[cur]
+				fpb := typedJSONDeep(inst)
+				r := Op(func() { rs[st.R].Validate(inst) })
+				c.CheckOp("Validate", r)
+				if typedJSONDeep(inst) != fpb {
+					c.Fail("C14/purity-instance", "Validate", "Validate changed the instance")
+				}
+			}
+			states = append(states, typedJSONDeep(insts[0])+"|"+typedJSONDeep(insts[1]))
+			if si == 0 {
+				c.Out("step %d %s -> %s", ti, st, JSON(insts[cur]))
+			}
+		}
+		if si == 0 {
+			baseStates = states
+			continue
+		}
+		for i := range states {
+			if states[i] != baseStates[i] {
+				c.Fail("C15/order-independence", "ApplyDefaults", "after step %d (%s) the instances are %s under schedule %d (%s) but %s under the canonical schedule", i, steps[i], states[i], si, sch, baseStates[i])
+				break
+			}
+		}
+	}
+	st := simrt.GetStats()
+	c.Distinct("%x", st.OrderHash)
+	c.Nontrivial = nontrivial
+	if inserted > 0 {
+		c.Probe("defaults-inserted")
+	}
+	if c.logOn {
+		var texts []json.RawMessage
+		for _, w := range worlds {
+			texts = append(texts, json.RawMessage(w.Text))
+		}
+		c.Sample = map[string]any{"schemas": texts, "instances": inst0, "history": fmt.Sprint(steps), "defaults_inserted_over_all_schedules": inserted}
+	}
+}
+
+// classify reduces a checker message to a stable class.
+func classify(msg string) string {
+	for _, k := range []string{"holds no declared default", "required property was filled", "not the declared default", "has been removed", "changed from", "declares no such property", "declares no default"} {
+		if contains2(msg, k) {
+			return k
+		}
+	}
+	return "other"
+}
+
+func contains2(s, sub string) bool {
+	return len(sub) <= len(s) && (func() bool {
+		for i := 0; i+len(sub) <= len(s); i++ {
+			if s[i:i+len(sub)] == sub {
+				return true
+			}
+		}
+		return false
+	})()
 }
